@@ -44,7 +44,8 @@ Inductive case :=
 | CWith (fl : flags) (q : nearsql) (use_cache : bool) (obs_prev : wseq) (obs_last : nearsql) (obs_cache : list (string * string))
 | CText (d : dialect) (fl : flags) (o : opts) (q : nearsql) (obs : string)
 | CMerge (fl : flags) (q_off : nearsql) (q_on : option nearsql)
-| CSound (fl : flags) (q : nearsql).          (* does the decidable sufficient condition for cache_sound hold on this real graph? *)
+| CSound (fl : flags) (q : nearsql)           (* does the decidable sufficient condition for cache_sound hold on this real graph? *)
+| CSoundJ (fl : flags) (q : nearsql).         (* ... when pairs of sub-queries that both contain a join are not asked? *)
 
 Definition case_ok (c : case) : bool :=
   match c with
@@ -60,6 +61,7 @@ Definition case_ok (c : case) : bool :=
       | _, _ => false
       end
   | CSound fl q => cache_sound_dec fl q
+  | CSoundJ fl q => cache_sound_dec_but_joins fl q
   end.
 
 Definition check_cases (cs : list case) : list nat := failing_idx case_ok cs.
